@@ -242,10 +242,14 @@ func (Const) NumStates() int { return 1 }
 type CharSet [2]uint64
 
 // Add adds c.
-func (s *CharSet) Add(c rune) { s[c>>6] |= 1 << (uint(c) & 63) }
+func (s *CharSet) Add(c rune) {
+	if c >= 0 && c < 128 { // a character outside ASCII is outside the alphabet: the edge can never be taken
+		s[c>>6] |= 1 << (uint(c) & 63)
+	}
+}
 
 // Has reports membership.
-func (s *CharSet) Has(c rune) bool { return c < 128 && s[c>>6]&(1<<(uint(c)&63)) != 0 }
+func (s *CharSet) Has(c rune) bool { return c >= 0 && c < 128 && s[c>>6]&(1<<(uint(c)&63)) != 0 }
 
 // AnyChar contains every ASCII character.
 var AnyChar = CharSet{^uint64(0), ^uint64(0)}
